@@ -1,5 +1,5 @@
 (* C08 — property theorems only. *)
-From SwayV Require Import Base.Util Asm.Model Asm.Erase C08.Spec C08.Model C08.Sim C08.Check C08.StageModel C08.Stages.
+From SwayV Require Import Base.Util Asm.Model Asm.Erase C08.Spec C08.Model C08.Sim C08.Check C08.StageModel C08.Stages C08.SlotModel C08.SlotProofs.
 Local Open Scope N_scope.
 
 (* A valid allocation makes the renamed program simulate the virtual-register program in
@@ -100,6 +100,31 @@ Theorem C08_interference_complete : forall ops L, is_postfix defs (items_of ops)
 Proof. exact interference_complete. Qed.
 Print Assumptions C08_interference_complete.
 
+(* Spill slots read back from the real output of spill(): a reported slot conflict is a genuine
+   counterexample (the second register IS live after the defining instruction in the least
+   solution of the liveness equations, and both registers have the same slot) ... *)
+Theorem C08_slot_conflict_real : forall ops m L i d v,
+  liveness defs FUEL ops = Some L -> slot_conflict m L ops = Some (i, d, v) ->
+  exists o n, nth_error ops i = Some o /\ In d (defs o) /\ live_out ops i v /\ v <> d /\
+    (forall s, kind o = KMove d s -> v <> s) /\ slot_in m d = Some n /\ slot_in m v = Some n.
+Proof. exact slot_conflict_real. Qed.
+Print Assumptions C08_slot_conflict_real.
+
+(* ... and when none is reported no two simultaneously live registers share a slot. *)
+Theorem C08_slot_conflict_none_valid : forall ops m L,
+  is_postfix defs (items_of ops) L = true -> slot_conflict m L ops = None ->
+  forall i o d v n, nth_error ops i = Some o -> In d (defs o) -> live_out ops i v -> v <> d ->
+    (forall s, kind o = KMove d s -> v <> s) -> slot_in m d = Some n -> slot_in m v <> Some n.
+Proof. exact slot_conflict_none_valid. Qed.
+Print Assumptions C08_slot_conflict_none_valid.
+
+(* The table computed by fixpoint iteration from the empty table is inside the least solution
+   (with C08_postfix_contains_least: it is the least solution). *)
+Theorem C08_liveness_is_least : forall kill fuel ops L, liveness kill fuel ops = Some L ->
+  forall i k, PS.In k (lget L i) -> live_gen kill ops i (key_reg k).
+Proof. exact liveness_sound. Qed.
+Print Assumptions C08_liveness_is_least.
+
 (* Non-vacuity: a loop with two simultaneously live registers; a correct 2-register assignment
    is accepted, merging the two live registers is rejected. *)
 Definition ex_ops : list op :=
@@ -122,4 +147,28 @@ Example C08_example_match :
     [KOther 6 [OReg 100; OImm 0]; KOther 6 [OReg 101; OImm 5]; KLabel 0;
      KOther 7 [OReg 100; OReg 100; OReg 1]; KOther 30 [OReg 102; OReg 101; OReg 100]; KJnz 0 102;
      KOther 1 [OReg 100]] = Some [true;true;true;true;true;true;false;true].
+Proof. vm_compute. reflexivity. Qed.
+
+(* Non-vacuity of the slot judgement: the model's own spilling of a function with two spilled,
+   simultaneously live registers has no conflict; giving both registers slot 0 is refuted with
+   the defining instruction and the two registers. *)
+Definition ex_spill_before : list op :=
+  [ mkOp [] [] [] true (KOther OPC_CFEI [OImm 0]);
+    mkOp [] [1000] [2;8] false (KOther 6 [OReg 1000; OImm 0]);
+    mkOp [] [1001] [2;8] false (KOther 6 [OReg 1001; OImm 5]);
+    mkOp [1000;1001] [1002] [2;8] false (KOther 7 [OReg 1002; OReg 1000; OReg 1001]);
+    mkOp [1002] [] [] true (KOther 1 [OReg 1002]) ].
+Definition ex_spill_after : list op :=
+  match spill ex_spill_before [1000;1001] with SpillOk l => l | _ => [] end.
+Definition ex_share (o : op) : op :=
+  match kind o with
+  | KOther opc [OReg a; OReg b; OImm w] =>
+      if orb (N.eqb opc OPC_LW) (N.eqb opc OPC_SW)
+      then mkOp (uses o) (defs o) (cdefs o) (se o) (KOther opc [OReg a; OReg b; OImm 0]) else o
+  | _ => o
+  end.
+Example C08_example_slots_ok : judge_slots ex_spill_before [1000;1001] ex_spill_after = [22].
+Proof. vm_compute. reflexivity. Qed.
+Example C08_example_slots_shared :
+  judge_slots ex_spill_before [1000;1001] (map ex_share ex_spill_after) = [20; 2; 1001; 1000].
 Proof. vm_compute. reflexivity. Qed.
